@@ -1850,8 +1850,14 @@ class MPO(MPSGeometry):
                 b = g = d = 1.0
                 a = 0.0
 
+            # the diagonal entries IdL -> IdL and IdR -> IdR: identities for an MPO in standard form, but e.g. a
+            # previous call of this function has rescaled them
+            IdL_IdL = W[IdL[k], IdL[k + 1]] if IdL[k + 1] is not None else Id_npc
+            IdR_IdR = W[IdR[k], IdR[k + 1]] if IdR[k] is not None else Id_npc
+            # Bottom Row; written first: if W has a single row, it coincides with the first row, which has to win
+            dW[-1, -1] = g * IdR_IdR
             # First Row - only this is modified
-            dW[0, 0] = d * Id_npc
+            dW[0, 0] = d * IdL_IdL
             for i in range(0, DR - 2):
                 dW[0, i + 1] = b ** (counter) * C_npc[0, i]
             dW[0, -1] = (b**N) * D_npc + a * Id_npc
@@ -1860,8 +1866,6 @@ class MPO(MPSGeometry):
                 for j in range(0, DR - 2):
                     dW[i + 1, j + 1] = b * A_npc[i, j]
                 dW[i + 1, -1] = b ** (N - counter + 1) * B_npc[i, 0]
-            # Bottom Rows
-            dW[-1, -1] = g * Id_npc
             U.append(dW)
 
         assert counter == N
